@@ -76,6 +76,7 @@ let table : (string * (sexp -> sexp)) list = [
   ("C16", run_C16);
   ("C18", run_C18);
   ("C17", run_C17);
+  ("C19", run_C19);
 ]
 
 let () =
